@@ -745,6 +745,16 @@ class Interp:
             if name in ("has_field", "HasField", "CopyFrom", "which_type", "which_expression"):
                 return _BoundRec(obj, name)
             raise Unsupported("read of undeclared field %s.%s at %s:%d" % (obj.typename, name, self.info.qualname, node.lineno))
+        if isinstance(obj, GStr):
+            if name in obj.ops:
+                return _BoundGhost(obj, name, obj.ops[name])
+            raise Unsupported("method %s of a ghost string at line %d" % (name, node.lineno))
+        if isinstance(obj, GObj):
+            if name in obj.attrs:
+                return obj.attrs[name]
+            if name in obj.methods:
+                return _BoundGhost(obj, name, obj.methods[name])
+            raise Unsupported("attribute %s of ghost object %s at line %d" % (name, obj.label, node.lineno))
         if isinstance(obj, GDict):
             if name == "get" and "get" not in obj.attrs:
                 return _BoundGDictGet(obj)
@@ -764,6 +774,10 @@ class Interp:
 
     def e_Subscript(self, e):
         obj = self.eval(e.value)
+        if isinstance(e.slice, ast.Slice) and isinstance(obj, GStr):
+            if e.slice.upper is not None or e.slice.step is not None or e.slice.lower is None or "suffix" not in obj.ops:
+                raise Unsupported("slice of a ghost string other than s[i:] at line %d" % e.lineno)
+            return obj.ops["suffix"](self, obj, self.eval(e.slice.lower))
         if isinstance(e.slice, ast.Slice):
             lo = self.eval(e.slice.lower) if e.slice.lower else None
             hi = self.eval(e.slice.upper) if e.slice.upper else None
@@ -1067,6 +1081,10 @@ class Interp:
             return True
         if isinstance(v, GDict):
             return v.truthy.t if isinstance(v.truthy, SBool) else v.truthy
+        if isinstance(v, GStr):
+            return v.length > 0
+        if isinstance(v, GObj):
+            return True
         return bool(v)
 
     def truth(self, v):
@@ -1133,7 +1151,7 @@ class Interp:
         eng = self.ctx.engine
         if isinstance(fn, _BoundRec):
             return fn.call(self, args, kwargs, node)
-        if isinstance(fn, (_BoundNative, _BoundGDictGet)):
+        if isinstance(fn, (_BoundNative, _BoundGDictGet, _BoundGhost)):
             return fn.call(self, args, kwargs, node)
         if isinstance(fn, _Closure):
             return fn.call(args)
@@ -1212,6 +1230,14 @@ def copy_rec(v):
     if isinstance(v, list):
         return [copy_rec(x) for x in v]
     return v
+
+
+class _BoundGhost:
+    def __init__(self, obj, name, fn):
+        self.obj, self.name, self.fn = obj, name, fn
+
+    def call(self, interp, args, kwargs, node):
+        return self.fn(interp, self.obj, *args, **kwargs)
 
 
 class _BoundGDictGet:
@@ -1369,6 +1395,8 @@ def _minmax(is_max):
 
 
 def _b_len(interp, node, v):
+    if isinstance(v, GStr):
+        return mk_int(v.length)
     if isinstance(v, PSet) and v.has_symbolic() and len(v) > 1:
         raise Unsupported("len() of a set with symbolic elements at line %d" % node.lineno)
     if isinstance(v, (list, tuple, dict, str, set, frozenset)):
@@ -1466,6 +1494,22 @@ class GDict:
     def __init__(self, present, entries, truthy=True, label="dict", attrs=None):
         self.present, self.entries, self.truthy, self.label = dict(present), dict(entries), truthy, label
         self.attrs = dict(attrs or {})       # attributes of a dict subclass instance (e.g. symbol_resolver._Scope)
+
+
+class GStr:
+    """A string of which a contract fixes only what the code may observe: its length (a z3 Int), and - through callbacks -
+    the result of the operations the contract allows (suffix slicing, startswith).  `tag` identifies the string for the
+    contract (e.g. ("suffix", offset term) or ("match", j, offset term))."""
+
+    def __init__(self, length, tag=None, ops=None):
+        self.length, self.tag, self.ops = length, tag, ops or {}
+
+
+class GObj:
+    """An opaque object with contract-defined methods: methods[name](interp, *args) -> value."""
+
+    def __init__(self, label, methods=None, attrs=None):
+        self.label, self.methods, self.attrs = label, dict(methods or {}), dict(attrs or {})
 
 
 class PSet(list):
